@@ -279,14 +279,23 @@ def probe_type(world: World, rname: str, tname: str):
     return diffs
 
 
-def probe_conv(world: World, pname: str, module_level: bool):
+def _x10(v):
+    return v * 10 if isinstance(v, int) else v
+
+
+CALL_RECIPES = {"none": lambda: None, "int_x10": lambda: [coercer(int, int, _x10)],
+                "opt_x10": lambda: [coercer(int, Optional[int], _x10), coercer(int, int, _x10)]}
+
+
+def probe_conv(world: World, pname: str, module_level: bool, call_recipe: str = "none"):
     s, d = CONV_PAIRS[pname]
     fresh = ConversionRetort()
+    kw = {} if call_recipe == "none" else {"recipe": CALL_RECIPES[call_recipe]()}
     if module_level:
-        cw = creation(adaptix.conversion.get_converter, s, d)
+        cw = creation(lambda: adaptix.conversion.get_converter(s, d, **kw))
     else:
-        cw = creation(world.warm_conv.get_converter, s, d)
-    cf = creation(fresh.get_converter, s, d)
+        cw = creation(lambda: world.warm_conv.get_converter(s, d, **kw))
+    cf = creation(lambda: fresh.get_converter(s, d, **kw))
     diffs = []
     if cw[0] != cf[0] or (cw[0] == "err" and cw[1] != cf[1]):
         diffs.append((f"get_converter({pname})", cw[:2] if cw[0] == "err" else "ok", cf[:2] if cf[0] == "err" else "ok"))
@@ -356,15 +365,18 @@ def apply_step(world: World, step):  # noqa: C901, PLR0912
         probes.append(("type", "warm", step["t"]))
     elif op in ("get_converter", "convert"):
         s, d = CONV_PAIRS[step["p"]]
+        kw = {} if step.get("cr", "none") == "none" else {"recipe": CALL_RECIPES[step["cr"]]()}
         try:
-            c = (adaptix.conversion.get_converter if step.get("module") else world.warm_conv.get_converter)(s, d)
+            c = (adaptix.conversion.get_converter if step.get("module") else world.warm_conv.get_converter)(s, d, **kw)
             if op == "convert":
                 c(CONV_VALUES[s.__name__ if s is not A1Twin else "A1Twin"]())
         except BaseException:  # noqa: BLE001, S110
             pass
-        probes.append(("conv", step["p"], bool(step.get("module"))))
+        # probe the same pair with every per-call recipe: a per-call recipe must be honoured whatever was asked before
+        for cr in CALL_RECIPES:
+            probes.append(("conv", step["p"], bool(step.get("module")), cr))
         if step.get("also"):
-            probes.append(("conv", step["also"], bool(step.get("module"))))
+            probes.append(("conv", step["also"], bool(step.get("module")), "none"))
     elif op == "call_old":
         pass
     return probes
@@ -385,8 +397,8 @@ def run_probes(ctx, world, probes, history):
                     diffs.append((f"adaptix.load({d!r}, {pr[1]})", ow, of))
             label = f"module:{pr[1]}"
         else:
-            diffs = probe_conv(world, pr[1], pr[2])
-            label = f"conv:{pr[1]}"
+            diffs = probe_conv(world, pr[1], pr[2], pr[3] if len(pr) > 3 else "none")
+            label = f"conv:{pr[1]}:{pr[3] if len(pr) > 3 else 'none'}"
         ctx.count("probes")
         for what, ow, of in diffs[:3]:
             prior = sorted({t for t in world.requested[:-1] if GROUP_OF.get(t) == GROUP_OF.get(pr[-1] if pr[0] != "conv" else "")})
@@ -506,10 +518,11 @@ class HistoryMachine(RuleBasedStateMachine):
         self.do({"op": "churn", "t": t, "n": n, "base": base * 1000})
 
     @rule(data=st.data(), op=st.sampled_from(["get_converter", "convert"]), p=st.sampled_from(sorted(CONV_PAIRS)),
-          module=st.booleans(), also=st.one_of(st.none(), st.sampled_from(sorted(CONV_PAIRS))))
-    def conversion(self, data, op, p, module, also):
+          module=st.booleans(), also=st.one_of(st.none(), st.sampled_from(sorted(CONV_PAIRS))),
+          cr=st.sampled_from(["none", "none", "int_x10", "opt_x10"]))
+    def conversion(self, data, op, p, module, also, cr):
         self.ensure(data)
-        step = {"op": op, "p": p, "module": module}
+        step = {"op": op, "p": p, "module": module, "cr": cr}
         if also:
             step["also"] = also
         self.do(step)
@@ -546,7 +559,7 @@ def explore(ctx: runner.Ctx):
     if ctx.shard == 0:
         for sc in SCENARIOS:
             check_case(ctx, sc)
-    n_machines = ctx.budget(160, 10000)
+    n_machines = ctx.budget(120, 10000)
     machine = hypothesis.seed(ctx.seed)(HistoryMachine)
     run_state_machine_as_test(machine, settings=hypothesis.settings(
         max_examples=n_machines, stateful_step_count=40, deadline=None, database=None, derandomize=False,
